@@ -48,7 +48,7 @@ typedef struct
     Bucket *currentbucket;  /* Current bucket (search finger) */
     Bucket *lastbucket;     /* Last bucket                    */
     int currentoffset;      /* Offset in currentbucket        */
-    int pseudoindex;        /* search finger index            */
+    Py_ssize_t pseudoindex; /* search finger index            */
     int first;              /* Start offset in firstbucket    */
     int last;               /* End offset in lastbucket       */
     char kind;              /* 'k', 'v', 'i'                  */
@@ -136,7 +136,8 @@ BTreeItems_length(BTreeItems *self)
 static int
 BTreeItems_seek(BTreeItems *self, Py_ssize_t i)
 {
-    int delta, pseudoindex, currentoffset;
+    Py_ssize_t delta, pseudoindex;
+    int currentoffset;
     Bucket *b, *currentbucket;
     int error;
 
@@ -144,6 +145,10 @@ BTreeItems_seek(BTreeItems *self, Py_ssize_t i)
     currentoffset = self->currentoffset;
     currentbucket = self->currentbucket;
     if (currentbucket == NULL)
+        goto no_match;
+    /* No sequence is that long; this also keeps the arithmetic below from
+     * overflowing. */
+    if (i > PY_SSIZE_T_MAX / 2 || i < -(PY_SSIZE_T_MAX / 2))
         goto no_match;
 
     delta = i - pseudoindex;
